@@ -14,7 +14,8 @@ import time as _real_time
 
 _tls = threading.local()
 
-WALL_STEP_LIMIT = 60.0   # a single grant must come back within this many real seconds
+WALL_STEP_LIMIT = 240.0   # a single grant must come back within this many real seconds (generous: the
+#                           machine may be heavily over-subscribed; exceeding it is a harness error, never a verdict)
 
 
 class SimAbort(SystemExit):
